@@ -52,27 +52,30 @@ fn reference(section: &[u8]) -> Vec<Item> {
     out
 }
 
+fn to_item(x: Result<v2::TypeLengthValue<'_>, E2>, base: *const u8) -> Item {
+    match x {
+        Ok(t) => {
+            let start = (t.value.as_ptr() as usize).wrapping_sub(base as usize);
+            Item::Ok {
+                kind: t.kind,
+                start,
+                len: t.value.len(),
+            }
+        }
+        Err(E2::Leftovers(_)) => Item::Leftovers,
+        Err(E2::InvalidTLV(k, l)) => Item::Invalid(k, l),
+        // an error kind the property does not allow here
+        Err(_) => Item::Invalid(0xEE, 0xEEEE),
+    }
+}
+
 /// What the real iterator yields, with value offsets relative to `base`.
 fn observe(it: &mut TypeLengthValues<'_>, base: *const u8, limit: usize) -> Vec<Item> {
     let mut out = Vec::new();
     while out.len() < limit {
         match it.next() {
             None => break,
-            Some(Ok(t)) => {
-                let start = (t.value.as_ptr() as usize).wrapping_sub(base as usize);
-                out.push(Item::Ok {
-                    kind: t.kind,
-                    start,
-                    len: t.value.len(),
-                });
-            }
-            Some(Err(E2::Leftovers(_))) => out.push(Item::Leftovers),
-            Some(Err(E2::InvalidTLV(k, l))) => out.push(Item::Invalid(k, l)),
-            Some(Err(other)) => out.push(Item::Invalid(0xEE, {
-                // an error kind the property does not allow here
-                let _ = other;
-                0xEEEE
-            })),
+            Some(x) => out.push(to_item(x, base)),
         }
     }
     out
@@ -203,9 +206,87 @@ impl<'s> Judge<'s> {
             Some(Item::Leftovers) | Some(Item::Invalid(..)) => st.hit("probe:next_after_error"),
             _ => st.hit("probe:next_after_end"),
         }
-        // the copies must continue exactly where they were taken
+        // the copies must continue exactly where they were taken, whichever part of the
+        // Iterator interface drives them
         for (at, mut c) in copies {
             st.hit("probe:copy_driven");
+            let remaining = &want[at..];
+            let mode = rng.below(6);
+            let k = rng.range(0, 3);
+            let adaptor: Option<(&'static str, Vec<Item>, Vec<Item>)> = match mode {
+                1 => {
+                    // nth(k), then plain iteration
+                    st.hit("probe:driven_by_nth");
+                    let mut got: Vec<Item> = Vec::new();
+                    let first = c.nth(k).map(|x| to_item(x, base));
+                    let mut exp: Vec<Item> = Vec::new();
+                    if let Some(x) = remaining.get(k) {
+                        exp.push(x.clone());
+                        exp.extend(remaining[k + 1..].iter().cloned());
+                    }
+                    if let Some(x) = first {
+                        got.push(x);
+                        got.extend(observe(&mut c, base, limit));
+                    } else {
+                        // exhausted: nothing may follow
+                        got.extend(observe(&mut c, base, limit));
+                    }
+                    Some(("nth", got, exp))
+                }
+                2 => {
+                    st.hit("probe:driven_by_skip");
+                    let got: Vec<Item> = c.skip(k).take(limit).map(|x| to_item(x, base)).collect();
+                    let exp: Vec<Item> = remaining.iter().skip(k).cloned().collect();
+                    Some(("skip", got, exp))
+                }
+                3 => {
+                    st.hit("probe:driven_by_step_by");
+                    let got: Vec<Item> = c
+                        .step_by(k + 1)
+                        .take(limit)
+                        .map(|x| to_item(x, base))
+                        .collect();
+                    let exp: Vec<Item> = remaining.iter().step_by(k + 1).cloned().collect();
+                    Some(("step_by", got, exp))
+                }
+                4 => {
+                    st.hit("probe:driven_by_last_count");
+                    let n = c.count();
+                    let last = c.last().map(|x| to_item(x, base));
+                    let mut got = vec![Item::Ok {
+                        kind: 0,
+                        start: n,
+                        len: 0,
+                    }];
+                    got.extend(last);
+                    let mut exp = vec![Item::Ok {
+                        kind: 0,
+                        start: remaining.len(),
+                        len: 0,
+                    }];
+                    exp.extend(remaining.last().cloned());
+                    Some(("count/last", got, exp))
+                }
+                _ => None,
+            };
+            if let Some((name, got, exp)) = adaptor {
+                if got != exp {
+                    return Some((
+                        "adaptor_diverges",
+                        name.to_string(),
+                        format!(
+                            "{}: a copy taken after {} items and driven through {}({}) yields {:?}, the reference walk gives {:?}",
+                            via,
+                            at,
+                            name,
+                            k,
+                            got.iter().take(3).collect::<Vec<_>>(),
+                            exp.iter().take(3).collect::<Vec<_>>()
+                        ),
+                    ));
+                }
+                continue;
+            }
             let rest = observe(&mut c, base, limit);
             if rest.as_slice() != &want[at..] {
                 return Some((
@@ -537,6 +618,10 @@ impl Check for C11 {
             "probe:next_after_error",
             "probe:next_after_end",
             "probe:copy_driven",
+            "probe:driven_by_nth",
+            "probe:driven_by_skip",
+            "probe:driven_by_step_by",
+            "probe:driven_by_last_count",
             "probe:raw_section",
             "probe:tlv_len_65535",
             "fault:length_lie_real_builder",
